@@ -126,7 +126,8 @@ def write_evidence(ctx, mod, obligations, discharged, theorems, violations, extr
         "wall_s": round(ctx.elapsed(), 2),
         "violations": violations,
     }
-    d = os.path.join(env.VERIF, "evidence")
+    # runs against a deliberately modified tree (tools/seed_verify.py) keep their evidence apart
+    d = os.environ.get("VERIF_EVIDENCE_DIR") or os.path.join(env.VERIF, "evidence")
     os.makedirs(d, exist_ok=True)
     tmp = os.path.join(d, ctx.prop + ".json.tmp%d" % os.getpid())
     with open(tmp, "w") as f:
@@ -218,7 +219,12 @@ def run(ctx, mod, args):
     violations = []
     if args.replay:
         data = json.load(open(args.replay))
-        vs = mod.replay(ctx, data)
+        if isinstance(data.get("replay"), dict) and data["replay"].get("kind") == "session":
+            from .lib import session
+
+            vs = session.replay(ctx, Violation, data)
+        else:
+            vs = mod.replay(ctx, data)
         for v in vs:
             print("REPLAY: property=%s still fails: %s" % (prop, v.what))
         if not vs:
@@ -231,7 +237,12 @@ def run(ctx, mod, args):
         for f in sorted(os.listdir(cdir)):
             if f.endswith(".json"):
                 data = json.load(open(os.path.join(cdir, f)))
-                vs = mod.replay(ctx, data)
+                if isinstance(data.get("replay"), dict) and data["replay"].get("kind") == "session":
+                    from .lib import session
+
+                    vs = session.replay(ctx, Violation, data)
+                else:
+                    vs = mod.replay(ctx, data)
                 ctx.count("corpus_replayed")
                 for v in vs:
                     v.what = "[corpus %s] %s" % (f, v.what)
@@ -242,6 +253,16 @@ def run(ctx, mod, args):
 
     if broken or divergences or violations:
         violations += mod.search(ctx, divergences, broken)
+
+    # cross-operation sessions (lib/session.py): the property's own operations interleaved with all
+    # the others on objects derived from one another, in one long-lived interpreter
+    sess = getattr(mod, "SESSION", None)
+    if sess:
+        from .lib import session
+
+        vs = session.run(ctx, Violation, **sess)
+        ctx.note("sessions: %d operations, %d failures" % (ctx.hist.get("session:ops", 0), len(vs)))
+        violations += vs
 
     unlisted = []
     for v in violations:
